@@ -70,6 +70,8 @@ Hypothesis PS : pure_sites_sub (@pure_ok).
 (* the new pure sites: the hooked calls *)
 Hypothesis PF : forall name h vs, fhooks name = Some h -> pure_ok (fh_apply h vs).
 Hypothesis PD : forall mode ds v, pure_ok (print_writes_hook dir_table mode ds v).
+(* ... and the application of ONE directive inside the loop (evalPrint applies each directive right after its arguments) *)
+Hypothesis PA : forall ds v esc, pure_ok (apply_dirs_hook dir_table ds v esc).
 
 Ltac phi_bind := apply (ws_bind _ _ L); [ | intro ].
 
@@ -83,27 +85,28 @@ Proof.
 Qed.
 
 Lemma sphi_print_dirs_hook (w : node -> M value) l :
-  (forall x, In x (flat_map dir_subs l) -> Phi (w x)) -> Phi (print_dirs_hook cf dir_table w l).
+  (forall x, In x (flat_map dir_subs l) -> Phi (w x)) -> forall v, Phi (print_dirs_hook cf dir_table w l v).
 Proof.
-  induction l as [|d r IH]; intros H; cbn [print_dirs_hook]; [apply (ws_ret _ _ L)|].
-  assert (Hr : Phi (print_dirs_hook cf dir_table w r)).
+  induction l as [|d r IH]; intros H v; cbn [print_dirs_hook]; [apply (ws_ret _ _ L)|].
+  assert (Hr : forall v', Phi (print_dirs_hook cf dir_table w r v')).
   { apply IH. intros y Hy. apply H. apply in_flat_map_tl. exact Hy. }
   destruct d; try apply (ws_fail _ _ L).
   destruct (dir_table name) as [de|]; [|apply (ws_fail _ _ L)].
   destruct (negb _); [apply (ws_fail _ _ L)|].
   phi_bind; [apply (sphi_eval_list _ _ L w args); intros y Hy; apply H; apply in_flat_map_hd; exact Hy|].
-  phi_bind; [exact Hr|]. apply (ws_ret _ _ L).
+  phi_bind; [apply (ws_lift _ _ L); apply PA|].
+  phi_bind; [apply Hr|]. apply (ws_ret _ _ L).
 Qed.
 
 Lemma sphi_print_hook (w : node -> M value) arg dirs :
   Phi (w arg) -> (forall x, In x (flat_map dir_subs dirs) -> Phi (w x)) -> Phi (print_hook cf dir_table w arg dirs).
 Proof.
   intros Ha Hd. unfold print_hook. phi_bind; [exact Ha|].
-  assert (Hrest : Phi (ds <-- print_dirs_hook cf dir_table w dirs ;;;
+  assert (Hrest : Phi (ds <-- print_dirs_hook cf dir_table w dirs (Some x) ;;;
                        st <-- get ;;;
                        ws <-- lift (print_writes_hook dir_table (mode st) ds x) ;;;
                        _ <-- write_all ws ;;; ret VUndef)).
-  { phi_bind; [apply sphi_print_dirs_hook; exact Hd|].
+  { phi_bind; [apply (sphi_print_dirs_hook w dirs Hd)|].
     apply (ws_read_mode _ _ L _ (fun md => ws <-- lift (print_writes_hook dir_table md x0 x) ;;; _ <-- write_all ws ;;; ret VUndef)).
     intros md. phi_bind; [apply (ws_lift _ _ L); apply PD|].
     phi_bind; [apply (sphi_write_all _ _ L) | apply (ws_ret _ _ L)]. }
@@ -143,12 +146,13 @@ Hypothesis L : walker_logic (@Phi) (@pure_ok).
 Hypothesis PS : pure_sites (@pure_ok).
 Hypothesis PF : forall name h vs, fhooks name = Some h -> pure_ok (fh_apply h vs).
 Hypothesis PD : forall mode ds v, pure_ok (print_writes_hook dir_table mode ds v).
+Hypothesis PA : forall ds v esc, pure_ok (apply_dirs_hook dir_table ds v esc).
 
 Lemma phi_walk_body_hook (w : node -> M value) :
   (forall n, Phi (w n)) -> forall n, Phi (walk_body_hook cf fhooks dir_table w n).
 Proof.
   intros Hw n.
-  apply (sphi_walk_body_hook cf fhooks dir_table _ _ (walker_logic_to_sub _ _ L) (pure_sites_to_sub _ PS) PF PD w n).
+  apply (sphi_walk_body_hook cf fhooks dir_table _ _ (walker_logic_to_sub _ _ L) (pure_sites_to_sub _ PS) PF PD PA w n).
   - apply (wl_set_cur _ _ L).
   - intros n' _. apply Hw.
   - intros callee cd _. apply (wl_enter _ _ L). apply Hw.
@@ -206,7 +210,9 @@ Proof.
   { intros name h vs Hin. apply nf_pure_nc. eapply HF. exact Hin. }
   assert (PD : forall mode ds v, inv_pure_ok allowed_nc (print_writes_hook dir_table mode ds v)).
   { intros. apply nf_pure_nc. apply print_writes_hook_nf. exact HD. }
-  pose proof (walk_hook_logic cf fhooks dir_table _ _ (inv_logic _ _ _ _ nc_conditions) nc_pure_sites PF PD fuel n st r st' I H) as H1.
+  assert (PA : forall ds v esc, inv_pure_ok allowed_nc (apply_dirs_hook dir_table ds v esc)).
+  { intros. apply nf_pure_nc. apply apply_dirs_hook_nf. exact HD. }
+  pose proof (walk_hook_logic cf fhooks dir_table _ _ (inv_logic _ _ _ _ nc_conditions) nc_pure_sites PF PD PA fuel n st r st' I H) as H1.
   cbn [fst]. destruct r; cbn in H1 |- *; try exact I; destruct H1 as [_ []].
 Qed.
 
@@ -219,7 +225,7 @@ Theorem walk_hook_deep cf fhooks dir_table fuel n st r st' :
 Proof.
   intros H.
   pose proof (walk_hook_logic cf fhooks dir_table _ _ (inv_logic _ _ _ _ deep_conditions) pure_sites_any
-                (fun _ _ _ _ => inv_pure_any _) (fun _ _ _ => inv_pure_any _) fuel n st r st' I H) as H1.
+                (fun _ _ _ _ => inv_pure_any _) (fun _ _ _ => inv_pure_any _) (fun _ _ _ => inv_pure_any _) fuel n st r st' I H) as H1.
   destruct (classify r); destruct H1; assumption.
 Qed.
 
@@ -234,7 +240,8 @@ Proof.
   - cbn [walk_hook]. apply (rel_lift _ _ (pos_rel_conditions B)). exact I.
   - cbn [walk_hook].
     apply (sphi_walk_body_hook cf fhooks dir_table _ _ (rel_logic_sub _ _ (pos_rel_conditions B))
-             (pure_sites_sub_any _ (fun _ => I)) (fun _ _ _ _ => rel_pure_any _) (fun _ _ _ => rel_pure_any _)).
+             (pure_sites_sub_any _ (fun _ => I)) (fun _ _ _ _ => rel_pure_any _) (fun _ _ _ => rel_pure_any _)
+             (fun _ _ _ => rel_pure_any _)).
     + apply rel_modify. intros st. split; [reflexivity|]. intros Hc. cbn.
       destruct (Nat.eqb (depth_ st) 0); [|exact Hc].
       apply node_all_head in Hn. unfold pos_le in Hn. lia.
@@ -336,6 +343,18 @@ Example user_directive_on_value :
   let run n := walk_user {| c_reg := empty_registry; c_ij := None; c_oblig := []; c_msgs := None |} (fun _ => None) udirs 5
                  (NPrint 0 n [NDirective 5 (b "count") []]) (init_state [] 0 [] None None 2) in
   rev (out (snd (run (NListLit 1 [NInt 2 7; NInt 4 8])))) = [b "2"] /\ is_err (fst (run (NInt 1 3))) = true.
+Proof. vm_compute. split; reflexivity. Qed.
+
+(* ... the loop applies each directive before it looks at the next one: a panicking user directive followed by a
+   directive whose ARGUMENT fails is reported at the first directive's node (the position register still holds it),
+   and the later argument is never evaluated (it would have moved the register to 30) *)
+Example user_directive_interleaved :
+  let ud := {| ud_arities := [0]; ud_cancel := false; ud_apply := fun _ _ => UPanic (b "boom") |} in
+  let udirs := fun name => if bstr_eqb name (b "bad") then Some ud else None in
+  let r := walk_user {| c_reg := empty_registry; c_ij := None; c_oblig := []; c_msgs := None |} (fun _ => None) udirs 5
+             (NPrint 0 (NInt 1 3) [NDirective 5 (b "bad") []; NDirective 20 (b "truncate") [NFunc 30 (b "nosuch") []]])
+             (init_state [] 0 [] None None 2) in
+  is_err (fst r) = true /\ cur (snd r) = 1.
 Proof. vm_compute. split; reflexivity. Qed.
 
 Theorem render_user_no_escape' cf ufuncs udirs fuel name data_id data cl bl first_id :
